@@ -112,11 +112,13 @@ package kv
 //@   requires [idx] len(entries) > 0 ==> forall k string :: has(fsm.store.m, k) ==> fsm.store.m[k].Ver < entries[0].Index
 //@   ensures  [C13.version.bound] err == nil && len(entries) > 0 ==> forall k string :: has(fsm.store.m, k) ==> fsm.store.m[k].Ver <= entries[len(entries)-1].Index
 //@   ensures  err == nil ==> sameSlice(out, entries)
+//@   ensures  [C13.all] err == nil ==> forall i Int :: 0 <= i && i < len(entries) ==> entries[i].Result.Value == 1 || entries[i].Result.Value == 2
 //@   modifies elems(fsm.store.m), elems(entries)
 //@   dead return 1
 //@   dead return 2
 //@   loop 0 invariant fsm.store == old(fsm.store) && fsm.store.m == old(fsm.store.m) && -1 <= rangeindex && (rangeindex < len(entries) || len(entries) == 0)
 //@   loop 0 invariant forall i Int :: 0 <= i && i < len(entries) ==> entries[i].Index == old(entries[i].Index) && sameSlice(entries[i].Cmd, old(entries[i].Cmd))
+//@   loop 0 invariant forall i Int :: 0 <= i && i <= rangeindex ==> entries[i].Result.Value == 1 || entries[i].Result.Value == 2
 //@   loop 0 invariant rangeindex + 1 < len(entries) ==> forall k string :: has(fsm.store.m, k) ==> fsm.store.m[k].Ver < entries[rangeindex+1].Index
 //@   loop 0 invariant rangeindex >= 0 && rangeindex + 1 >= len(entries) ==> forall k string :: has(fsm.store.m, k) ==> fsm.store.m[k].Ver <= entries[rangeindex].Index
 //@   loop 0 step [C13.cas.reject] prev(rejected(fsm.store, entries[rangeindex+1].Cmd)) ==> entries[rangeindex+1].Result.Value == 2 && pairOf(entries[rangeindex+1].Result.Data) == prev(fsm.store.m[updOf(entries[rangeindex+1].Cmd).KVPair.Key]) && forall k string :: has(fsm.store.m, k) == prev(has(fsm.store.m, k)) && fsm.store.m[k] == prev(fsm.store.m[k])
@@ -125,3 +127,121 @@ package kv
 //@   loop 0 step [C13.cas.frame] forall k string :: k != updOf(entries[rangeindex+1].Cmd).KVPair.Key ==> has(fsm.store.m, k) == prev(has(fsm.store.m, k)) && fsm.store.m[k] == prev(fsm.store.m[k])
 //@   loop 0 step [C13.cas.noop] !prev(rejected(fsm.store, entries[rangeindex+1].Cmd)) && updOf(entries[rangeindex+1].Cmd).Op != "set" && updOf(entries[rangeindex+1].Cmd).Op != "delete" ==> forall k string :: has(fsm.store.m, k) == prev(has(fsm.store.m, k)) && fsm.store.m[k] == prev(fsm.store.m[k])
 //@   loop 0 step [C13.version.fresh] !prev(rejected(fsm.store, entries[rangeindex+1].Cmd)) && updOf(entries[rangeindex+1].Cmd).Op == "set" ==> forall k string :: prev(has(fsm.store.m, k)) ==> fsm.store.m[updOf(entries[rangeindex+1].Cmd).KVPair.Key].Ver > prev(fsm.store.m[k].Ver)
+
+// glob and directory listings: read-only on the store (their result sets are not under contract:
+// path.Match / path.Clean / strings.Split and the sorts are outside the engine's subset)
+//@ func (*MapStore).GetAll
+//@   assumed
+//@   requires s != nil
+//@   modifies nothing
+//@ func (*MapStore).GetAllValues
+//@   assumed
+//@   requires s != nil
+//@   modifies nothing
+//@ func (*MapStore).List
+//@   assumed
+//@   requires s != nil
+//@   modifies nothing
+//@ func (*MapStore).ListDir
+//@   assumed
+//@   requires s != nil
+//@   modifies nothing
+
+// Lookup answers from the map: exists / get are exactly the map's content.
+//@ func (*LFSM).Lookup
+//@   params fsm, e
+//@   results res, err
+//@   requires fsm != nil && fsm.store != nil
+//@   ensures [C13.lookup.exists] typeIs(e, QueryExist) ==> err == nil && typeIs(res, bool) && asType(res, bool) == has(fsm.store.m, asType(e, QueryExist).Key)
+//@   ensures [C13.lookup.get] typeIs(e, QueryKey) && has(fsm.store.m, asType(e, QueryKey).Key) ==> err == nil && typeIs(res, Pair) && asType(res, Pair) == fsm.store.m[asType(e, QueryKey).Key]
+//@   ensures [C13.lookup.get] typeIs(e, QueryKey) && !has(fsm.store.m, asType(e, QueryKey).Key) ==> err != nil
+//@   modifies nothing
+
+// ---- snapshots: image = json of the map; restore = exactly the image
+// encoding/json dispatches to the Marshaler / Unmarshaler methods of *MapStore: assumed, stated with
+// the postconditions of (*MapStore).MarshalJSON / UnmarshalJSON, which are verified above. A decoder
+// is identified with the reader it was built on; the snapshot stream holds one JSON value.
+//@ ghostfield any.src Iface
+//@ func json.Marshal<*kv.MapStore>
+//@   assumed
+//@   params v
+//@   results data, err
+//@   ensures err == nil ==> fresh(data) && forall k string :: imgHas(bytesOf(data), k) == has(asType(v, *kv.MapStore).m, k) && (has(asType(v, *kv.MapStore).m, k) ==> imgGet(bytesOf(data), k) == asType(v, *kv.MapStore).m[k])
+//@   modifies nothing
+//@ func json.NewDecoder
+//@   assumed
+//@   params r
+//@   ensures result != nil && fresh(result) && result.src == r
+//@   modifies nothing
+//@ func json.(*Decoder).Decode<*kv.MapStore>
+//@   assumed
+//@   params dec, v
+//@   results err
+//@   requires dec != nil && asType(v, *kv.MapStore) != nil
+//@   ensures err == nil ==> asType(v, *kv.MapStore).m != nil && forall k string :: has(asType(v, *kv.MapStore).m, k) == imgHas(old(dec.src.rest), k) && (has(asType(v, *kv.MapStore).m, k) ==> asType(v, *kv.MapStore).m[k] == imgGet(old(dec.src.rest), k))
+//@   modifies asType(v, *kv.MapStore).m, dec.src.rest
+
+//@ func (*LFSM).PrepareSnapshot
+//@   params fsm
+//@   results res, err
+//@   requires fsm != nil && fsm.store != nil
+//@   ensures [C13.snapshot.image] err == nil ==> typeIs(res, []byte) && forall k string :: imgHas(bytesOf(asType(res, []byte)), k) == has(fsm.store.m, k) && (has(fsm.store.m, k) ==> imgGet(bytesOf(asType(res, []byte)), k) == fsm.store.m[k])
+//@   modifies nothing
+
+//@ func (*LFSM).SaveSnapshot
+//@   params fsm, ctx, w, fc, stopc
+//@   results err
+//@   requires typeIs(ctx, []byte) && w.slen == 0
+//@   ensures [C13.snapshot.save] err == nil ==> seqBytes(w.sdata, 0, w.slen) == bytesOf(asType(ctx, []byte))
+//@   modifies w.sdata, w.slen
+
+//@ func (*LFSM).RecoverFromSnapshot
+//@   params fsm, r, files, stopc
+//@   results err
+//@   requires fsm != nil && fsm.store != nil
+//@   ensures [C13.snapshot.restore] err == nil ==> forall k string :: has(fsm.store.m, k) == imgHas(old(r.rest), k) && (has(fsm.store.m, k) ==> fsm.store.m[k] == imgGet(old(r.rest), k))
+//@   modifies fsm.store.m, r.rest
+
+// a store restored from the image of another store is equal to it
+//@ lemma snapshotRoundTrip(a *MapStore, b *MapStore, img Bytes)
+//@   requires forall k string :: imgHas(img, k) == has(a.m, k) && (has(a.m, k) ==> imgGet(img, k) == a.m[k])
+//@   requires forall k string :: has(b.m, k) == imgHas(img, k) && (has(b.m, k) ==> b.m[k] == imgGet(img, k))
+//@   ensures [C13.snapshot.roundtrip] forall k string :: has(b.m, k) == has(a.m, k) && (has(a.m, k) ==> b.m[k] == a.m[k])
+
+// ---- the client side: proposals are built from the arguments, and the mismatch code is mapped to
+// ErrVersionMismatch together with the current pair the state machine reported
+//@ initfact ErrVersionMismatch : ErrVersionMismatch != nil
+//@ func json.Marshal<kv.Update>
+//@   assumed
+//@   params v
+//@   results data, err
+//@   ensures err == nil && fresh(data) && updOf(data) == asType(v, kv.Update)
+//@   modifies nothing
+//@ func json.Unmarshal<*kv.Pair>
+//@   assumed
+//@   params data, v
+//@   results err
+//@   ensures err == nil ==> *asType(v, *kv.Pair) == pairOf(data)
+//@   ensures err != kv.ErrVersionMismatch
+//@   modifies *asType(v, *kv.Pair)
+
+//@ func (*RaftStore).Set
+//@   params r, key, value, ver
+//@   results p, err
+//@   requires r != nil && r.NodeHost != nil
+//@   ensures [C13.client.set] updOf(r.NodeHost.lastCmd) == Update{Op: "set", KVPair: Pair{Key: key, Value: value, Ver: ver}}
+//@   ensures [C13.client.set] r.NodeHost.lastErr == nil && r.NodeHost.lastRes.Value == 2 ==> err != nil && (err == ErrVersionMismatch ==> p == pairOf(r.NodeHost.lastRes.Data))
+//@   ensures [C13.client.set] err == nil ==> r.NodeHost.lastErr == nil && r.NodeHost.lastRes.Value != 2 && p == pairOf(r.NodeHost.lastRes.Data)
+//@   ensures [C13.client.set] err == ErrVersionMismatch ==> r.NodeHost.lastErr != nil || r.NodeHost.lastRes.Value == 2
+//@   modifies r.NodeHost.lastRes, r.NodeHost.lastErr, r.NodeHost.lastCmd
+//@   dead return 1
+
+//@ func (*RaftStore).Delete
+//@   params r, key, ver
+//@   results err
+//@   requires r != nil && r.NodeHost != nil
+//@   ensures [C13.client.delete] updOf(r.NodeHost.lastCmd).Op == "delete" && updOf(r.NodeHost.lastCmd).KVPair.Key == key && updOf(r.NodeHost.lastCmd).KVPair.Ver == ver
+//@   ensures [C13.client.delete] r.NodeHost.lastErr == nil && r.NodeHost.lastRes.Value == 2 ==> err == ErrVersionMismatch
+//@   ensures [C13.client.delete] err == nil ==> r.NodeHost.lastErr == nil && r.NodeHost.lastRes.Value != 2
+//@   modifies r.NodeHost.lastRes, r.NodeHost.lastErr, r.NodeHost.lastCmd
+//@   dead return 1
